@@ -105,10 +105,12 @@ func ToCode(i int) Code { return Code(i) }
 
 func init() {}
 `,
-		// unmarked interfaces in other files of the package; the rejected version bad:multi embeds them
-		pkgDir + "/audit.go":   "package " + pkg + "\n\n// AuditConverter is embedded by a converter interface.\ntype AuditConverter interface {\n\t// Stamp has no source.\n\tStamp() *PetDTO\n}\n",
-		pkgDir + "/billing.go": "package " + pkg + "\n\n// BillingConverter is embedded by a converter interface.\ntype BillingConverter interface {\n\tOwnerToDTO(*Owner) *OwnerDTO\n\t// Settle has no destination.\n\tSettle(*Owner)\n}\n",
-		"sibling/doc.go":       "package sibling\n",
+		// unmarked interfaces in other files of the package; the rejected version bad:multi embeds them. Every
+		// other file of the package sorts AFTER the output paths (setup.gen.go, custom.go, ...): where two package
+		// clauses meet in one directory the go command goes by the first file, and that must be the leftover
+		pkgDir + "/v_audit.go":   "package " + pkg + "\n\n// AuditConverter is embedded by a converter interface.\ntype AuditConverter interface {\n\t// Stamp has no source.\n\tStamp() *PetDTO\n}\n",
+		pkgDir + "/v_billing.go": "package " + pkg + "\n\n// BillingConverter is embedded by a converter interface.\ntype BillingConverter interface {\n\tOwnerToDTO(*Owner) *OwnerDTO\n\t// Settle has no destination.\n\tSettle(*Owner)\n}\n",
+		"sibling/doc.go":         "package sibling\n",
 		// a package of the module that goes by the name of a standard library package
 		"app/time/time.go": `package time
 
@@ -258,6 +260,10 @@ type C interface {
 	// :map Extra Name
 	Row2(*model.User) *model.UserRow
 }
+
+// Later is a converter interface that has no methods yet.
+// :convergen
+type Later interface{}
 `))
 	ins = append(ins, mk("blankdup", "conv", `//go:build convergen
 
